@@ -1432,10 +1432,20 @@ def rule_args_order(prog, rep, tier, entry="__main__.main", worker="conformance.
     the namespace (a rebuilt `Namespace(..)`, `setattr(args, ..)`, `args.x = ..`) passes the lists through something that reorders
     or de-duplicates them (`sorted`, `set`, `frozenset`, `reversed`, a negative-step slice, `.sort()` / `.reverse()` in place)."""
     fi = prog.fn(entry)
-    calls = [c for c in ast.walk(fi.node) if isinstance(c, ast.Call) and isinstance(c.func, (ast.Name, ast.Attribute)) and prog.is_fn(c.func, worker, c)]
+    region = prog.region(fi)   # the branch of a command may live in a private helper (`_run_sync(parser, args, ..)`)
+    calls = [c for f_ in region for c in ast.walk(f_.node) if isinstance(c, ast.Call) and isinstance(c.func, (ast.Name, ast.Attribute)) and prog.is_fn(c.func, worker, c)]
     if not calls:
-        raise AnalysisError("ARGS-ORDER: %s no longer calls %s" % (entry, worker))
+        # reached through a table of runners (`_COMMAND_RUNNERS[args.command](..)`): every function of the entry's module counts
+        region = [f_ for f_ in fi.module.functions.values()]
+        calls = [c for f_ in region for c in ast.walk(f_.node) if isinstance(c, ast.Call) and isinstance(c.func, (ast.Name, ast.Attribute)) and prog.is_fn(c.func, worker, c)]
+    if not calls:
+        raise AnalysisError("ARGS-ORDER: %s (with its module) no longer calls %s" % (entry, worker))
     ns_names = {n.id for c in calls for a in c.args[:1] for n in ast.walk(a) if isinstance(n, ast.Name)}
+    for f_ in region:
+        for st in ast.walk(f_.node):
+            if isinstance(st, ast.Assign) and len(st.targets) == 1 and isinstance(st.targets[0], ast.Name) and isinstance(st.value, ast.Call) \
+                    and getattr(st.value.func, "attr", getattr(st.value.func, "id", "")) in ("parse_args", "parse_known_args", "Namespace"):
+                ns_names.add(st.targets[0].id)
     if not ns_names:
         raise AnalysisError("ARGS-ORDER: the namespace handed to %s is not a name" % worker)
     REORDER = ("sorted", "set", "frozenset", "reversed")
@@ -1450,7 +1460,7 @@ def rule_args_order(prog, rep, tier, entry="__main__.main", worker="conformance.
             if isinstance(x, (ast.Set, ast.SetComp)):
                 return x
         return None
-    for st in ast.walk(fi.node):
+    for st in [x for f_ in region for x in ast.walk(f_.node)]:
         val, what = None, None
         if isinstance(st, ast.Assign) and any((isinstance(t, ast.Name) and t.id in ns_names) or (isinstance(t, ast.Attribute) and isinstance(t.value, ast.Name) and t.value.id in ns_names)
                                               for t in st.targets):
